@@ -515,3 +515,25 @@ func verifLemma_C12_overlay_world_plain_tags(v string, x string) {
 	verifrt.Assert(w.AddTag(FromOSMRelationID(9).FeatureID(), b6.Tag{Key: "a", Value: b6.NewStringExpression(v)}) != nil, "absent-feature-is-an-error")
 	verifrt.Assert(w.FindFeatureByID(FromOSMRelationID(9).FeatureID()) == nil, "absent-feature-stays-absent")
 }
+
+// ---- C24: FindValues on a collection feature (bounded shapes) ---------------------------------
+// Int keys with duplicates, values symbolic: the sorted branch (after the real Sort) and
+// the linear branch both return exactly the values stored under the key, in order, appended
+// to what the caller passed in, and nothing for an absent key.
+func verifLemma_C24_find_values(a, b, c, d int) {
+	u := &CollectionFeature{CollectionID: b6.MakeCollectionID(b6.NamespacePrivate, 1), Keys: []any{3, 1, 3, 5}, Values: []any{a, b, c, d}}
+	got := u.FindValues(3, nil)
+	verifrt.Assert(len(got) == 2 && got[0].(int) == a && got[1].(int) == c, "linear-scan-finds-both-in-order")
+	verifrt.Assert(len(u.FindValues(4, nil)) == 0, "linear-scan-absent-key")
+	more := u.FindValues(5, []any{7})
+	verifrt.Assert(len(more) == 2 && more[0].(int) == 7 && more[1].(int) == d, "appends-to-the-callers-slice")
+	u.Sort()
+	verifrt.Assert(u.Keys[0].(int) == 1 && u.Keys[1].(int) == 3 && u.Keys[2].(int) == 3 && u.Keys[3].(int) == 5 && u.Values[0].(int) == b && u.Values[3].(int) == d, "sort-keeps-values-with-their-keys")
+	s := u.FindValues(3, nil)
+	verifrt.Assert(len(s) == 2 && ((s[0].(int) == a && s[1].(int) == c) || (s[0].(int) == c && s[1].(int) == a)), "sorted-branch-finds-both")
+	verifrt.Assert(len(u.FindValues(4, nil)) == 0 && len(u.FindValues(0, nil)) == 0 && len(u.FindValues(9, nil)) == 0, "sorted-branch-absent-keys")
+	one := u.FindValues(1, nil)
+	verifrt.Assert(len(one) == 1 && one[0].(int) == b, "sorted-branch-first-key")
+	v, ok := u.FindValue(5)
+	verifrt.Assert(ok && v.(int) == d, "find-value-agrees")
+}
